@@ -28,7 +28,7 @@ class ReplayDivergence(Exception):
 
 
 class TS:
-    __slots__ = ("id", "name", "sem", "state", "pred", "deadline", "last_run", "real", "daemon", "error")
+    __slots__ = ("id", "name", "sem", "state", "pred", "deadline", "last_run", "real", "daemon", "error", "view")
 
     def __init__(self, tid, name):
         self.id = tid
@@ -41,6 +41,7 @@ class TS:
         self.real = None
         self.daemon = False
         self.error = None
+        self.view = None
 
 
 class Sched:
@@ -364,7 +365,45 @@ def vclock():
     return SCHED.clock + SCHED.reads * 1e-9
 
 
-class VThreadingModule:
+class _ThreadView:
+    """What threading.current_thread() / main_thread() return under the scheduler: one stable object per thread."""
+
+    def __init__(self, ts):
+        self._ts = ts
+
+    @property
+    def name(self):
+        return self._ts.name
+
+    def getName(self):
+        return self._ts.name
+
+    @property
+    def ident(self):
+        return self._ts.id
+
+    @property
+    def daemon(self):
+        return self._ts.daemon
+
+    def is_alive(self):
+        return self._ts.state != "done"
+
+
+def _view(ts):
+    v = getattr(ts, "view", None)
+    if v is None:
+        v = _ThreadView(ts)
+        ts.view = v
+    return v
+
+
+class _VThreadingMeta(type):
+    def __getattr__(cls, name):  # anything else (Lock, RLock, local, ...) comes from the real module
+        return getattr(_threading, name)
+
+
+class VThreadingModule(metaclass=_VThreadingMeta):
     """Stands in for the `threading` module attribute of a pyDCOP module."""
 
     Thread = VThread
@@ -373,10 +412,19 @@ class VThreadingModule:
 
     @staticmethod
     def current_thread():
-        class _T:
-            name = SCHED.current.name
+        return _view(SCHED.current)
 
-        return _T()
+    @staticmethod
+    def main_thread():
+        return _view(SCHED.threads[0])
+
+    @staticmethod
+    def get_ident():
+        return SCHED.current.id
+
+    @staticmethod
+    def enumerate():
+        return [_view(t) for t in SCHED.threads if t.state != "done"]
 
 
 class VTimeModule:
